@@ -82,3 +82,37 @@ Theorem C09_translated_validator_updates_order_free :
   (forall oldpm newpm oe ne, gen_diff_powermaps oldpm newpm oe ne = diff_powermaps_enum oldpm newpm oe ne).
 Proof. split; [exact gen_validator_updates_order_free|exact gen_diff_agrees]. Qed.
 Print Assumptions C09_translated_validator_updates_order_free.
+
+(* Each node answers its own mempool's CheckTx calls between the blocks; the property is about
+   the block sequence. Whatever CheckTx calls are interleaved, the calls that execute blocks
+   (BeginBlock, DeliverTx, EndBlock, Commit) are answered alike and leave the same replicated
+   state [eqc] = every component of the state except the CheckTx bookkeeping. *)
+From Verif Require Import Generated.AppFrame Proofs.AppFrame.
+Theorem C09_mempool_irrelevant : forall e cs a b, eqc a b ->
+  eqc (fst (run e a cs)) (fst (run e b (drop_checks cs))) /\
+  block_responses cs (snd (run e a cs)) = snd (run e b (drop_checks cs)).
+Proof. exact mempool_irrelevant. Qed.
+Print Assumptions C09_mempool_irrelevant.
+
+Example C09_mempool_irrelevant_nonvacuous :
+  exists s0, init_chain ex_genesis = Some s0 /\
+  let cs := [CBegin 1; CCheck (Tx (ex_k 2) (hx "63") 2 (PBlockSeen 1)); ex_vote 1 1;
+             CCheck (Tx (ex_k 9) (hx "63") 5 PNone); ex_vote 2 2; CEnd 1; CCommit] in
+  block_responses cs (snd (run enum_id s0 cs)) = snd (run enum_id s0 (drop_checks cs)) /\
+  List.length (drop_checks cs) = 5%nat /\ chk_nonces (fst (run enum_id s0 [CBegin 1; CCheck (Tx (ex_k 2) (hx "63") 2 (PBlockSeen 1))])) <> [].
+Proof. eexists. split; [reflexivity|]. vm_compute. repeat split; discriminate. Qed.
+
+(* On the source as read on this run (Generated/AppFrame.v, go/types over the app package):
+   CheckTx can write only the CheckTx bookkeeping, Commit only that and the node-local save,
+   Info / Query / BeginBlock / PrepareProposal / ProcessProposal nothing at all (transitively
+   inside the package), and no package-level variable is written after initialisation - the
+   source-side counterpart of check_tx_frame / commit_frame and of "nothing but the genesis and
+   the calls enters". *)
+Theorem C09_translated_frame_agrees :
+  gen_entry_writes = model_entry_writes /\ never_written gen_package_var_writes = true /\
+  (forall s t, eqc (fst (check_tx s t)) s) /\ (forall s, eqc (commit s) s).
+Proof.
+  destruct frame_tables_agree as [H1 H2].
+  split; [exact H1|split; [exact H2|split; [exact check_tx_frame|exact commit_frame]]].
+Qed.
+Print Assumptions C09_translated_frame_agrees.
